@@ -61,6 +61,15 @@ def _from_tokenizer(recv, fi):
     return False
 
 
+def _label_kind(label):
+    """'inspector.exception_message' -> '.exception_message'; 'str(self._exception)' / 'str(e)' -> 'str(<exception>)'"""
+    if label.startswith("str("):
+        return "str(<exception>)"
+    if "." in label:
+        return "." + label.rsplit(".", 1)[1]
+    return label
+
+
 def live_reachable(ctx, roots):
     """Functions reachable from roots through call sites that sit on live CFG nodes."""
     cg = ctx.cg
@@ -160,12 +169,15 @@ def taint_rule(ctx, rule_id, roots, statement, reference=None):
     flows = [f for f in t.flows if f.fi.qualname in reach]
     flagged = set()
     for f in sorted(flows, key=lambda f: (f.fi.qualname, f.sink_call.lineno, f.label)):
-        construct = "%s -> %s [%s]" % (f.label, f.sink_name, norm(f.sink_call.func))
+        # keyed by (class, kind of source -> kind of sink): stable under renaming of locals and under the
+        # extraction of helper methods; a flow of another kind, or in another class, is a different key
+        construct = "%s -> %s" % (_label_kind(f.label), f.sink_name)
         flagged.add(id(f.sink_call))
-        r.fail(f.fi, f.sink_call, construct,
+        scope = f.fi.cls.qualname if f.fi.cls is not None else (f.fi.parent.cls.qualname if f.fi.parent is not None and f.fi.parent.cls is not None else None)
+        r.fail(f.fi, f.sink_call, construct, key_scope=scope, message=
                "text that is not authored markup (%s) reaches the markup interpreter %s(); an unmatched closing tag in it "
                "makes rendering raise ValueError (and tag-like text is not shown verbatim)" % (f.label, f.sink_name),
-               chain=" -> ".join(f.chain), sink_call=norm(f.sink_call)[:120])
+               chain=" -> ".join(f.chain), sink_call=norm(f.sink_call)[:120], function=f.fi.qualname)
     for fi in sorted(reach.values(), key=lambda f: f.qualname):
         for cs in ctx.cg.sites_in(fi):
             if t.is_sink(cs, fi) is not None and id(cs.node) not in flagged:
@@ -182,7 +194,7 @@ def run(ctx):
 
     taint_rule(ctx, "C20-R1", [render],
                "text that is not authored markup (exception message, source lines, file names, solution texts) never "
-               "reaches a markup-interpreting sink that can raise", reference=42)
+               "reaches a markup-interpreting sink that can raise", reference=40)
 
     # ---------------------------------------------------------------- R2
     r = ctx.rule("C20-R2", "GUARD", "frames under the ignored path are skipped only when the verbosity is not debug", reference=1)
@@ -210,6 +222,24 @@ def run(ctx):
             r.ok("%s: ignored-path skip only under 'not io.is_debug()'" % rt.short)
         else:
             r.fail(rt, s, "continue (ignored path)", "frames under the ignored path are dropped even at debug verbosity")
+    if not skips:
+        # positive form: `if not ignore or not match or debug: keep(frame)` - every path of an iteration that does
+        # not keep the frame must have seen 'not debug'
+        ign_conds = [c for c in cfg.conds() if any(isinstance(x, ast.Attribute) and x.attr == "_ignore" for x in walk_no_nested(c.ast))]
+        for c0 in ign_conds[:1]:
+            loops = cfg.enclosing_loops(c0.ast)
+            if not loops:
+                continue
+            heads = [n for n in cfg.nodes if n.kind == "loop_body" and n.ast is loops[0]]
+            loop_heads = [n.id for n in cfg.nodes if n.kind == "for" and n.ast is loops[0]]
+            keeps = set(n.id for n in cfg.nodes if n.kind == "stmt" and any(a is loops[0] for a in _ancestors(n.ast))
+                        and any(isinstance(c, ast.Call) and isinstance(c.func, ast.Attribute) and c.func.attr in ("append", "add", "insert") for c in walk_no_nested(n.ast)))
+            not_debug = set(e.id for e in cfg.nodes if e.kind == "F" and isinstance(e.ast, ast.Call) and isinstance(e.ast.func, ast.Attribute) and e.ast.func.attr == "is_debug")
+            r.vacuous_ok = False
+            if keeps and all(cfg.all_paths_hit(h.id, keeps | not_debug, loop_heads) for h in heads):
+                r.ok("%s: a frame is dropped only on paths that saw 'not io.is_debug()'" % rt.short)
+            else:
+                r.fail(rt, c0.ast, "ignore filter", "frames under the ignored path are dropped even at debug verbosity")
 
     # ---------------------------------------------------------------- R3
     r = ctx.rule("C20-R3", "SIBLING", "the marker test and the printed line number use the same index expression; "
@@ -222,8 +252,14 @@ def run(ctx):
                 if isinstance(a, ast.Name) and a.id == "mark_line":
                     marks.append((n, b))
     nums = []
+    # the printed number: a local assigned from "{:>{}}".format(<index expr>, <width>) / str(<index expr>) inside the enumeration
+    ivars = set()
     for n in walk_no_nested(ln.node):
-        if isinstance(n, ast.Assign) and len(n.targets) == 1 and isinstance(n.targets[0], ast.Name) and n.targets[0].id == "line_number":
+        if isinstance(n, ast.For) and isinstance(n.iter, ast.Call) and isinstance(n.iter.func, ast.Name) and n.iter.func.id == "enumerate" and isinstance(n.target, ast.Tuple) and isinstance(n.target.elts[0], ast.Name):
+            ivars.add(n.target.elts[0].id)
+    for n in walk_no_nested(ln.node):
+        if isinstance(n, ast.Assign) and len(n.targets) == 1 and isinstance(n.targets[0], ast.Name) and isinstance(n.value, ast.Call) and n.value.args \
+                and q.names_in(n.value.args[0]) & ivars and not any(isinstance(x, ast.Name) and x.id == "mark_line" for x in walk_no_nested(n.value)):
             v = n.value
             if isinstance(v, ast.Call) and isinstance(v.func, ast.Attribute) and v.func.attr == "format" and v.args:
                 nums.append((n, v.args[0]))
@@ -276,13 +312,29 @@ def run(ctx):
                     for t in n.targets:
                         if isinstance(t, ast.Name):
                             derived.add(t.id)
+        def writes_attr(fn, depth=0):
+            """fn contains a write call whose arguments carry <attr> (directly or through locals)"""
+            dloc = set()
+            for _ in range(4):
+                for n_ in walk_no_nested(fn.node):
+                    if isinstance(n_, ast.Assign) and any((isinstance(x, ast.Attribute) and x.attr == attr) or (isinstance(x, ast.Name) and x.id in dloc) for x in walk_no_nested(n_.value)):
+                        for t_ in n_.targets:
+                            if isinstance(t_, ast.Name):
+                                dloc.add(t_.id)
+            for cs_ in ctx.cg.sites_in(fn):
+                if any(t.name in ("_render_line", "write_line", "write", "error_line") for t in cs_.targets):
+                    if any((isinstance(x, ast.Attribute) and x.attr == attr) or (isinstance(x, ast.Name) and x.id in dloc)
+                           for a in list(cs_.node.args) + [k.value for k in cs_.node.keywords] for x in walk_no_nested(a)):
+                        return True
+            return False
         for cs in ctx.cg.sites_in(rex):
-            if not any(t.name in ("_render_line", "write_line", "write", "error_line") for t in cs.targets):
-                continue
-            uses = any((isinstance(x, ast.Attribute) and x.attr == attr) or (isinstance(x, ast.Name) and x.id in derived)
-                       for a in list(cs.node.args) + [k.value for k in cs.node.keywords] for x in walk_no_nested(a))
-            if uses:
-                sites.extend(cfg.nodes_of(cs.node))
+            if any(t.name in ("_render_line", "write_line", "write", "error_line") for t in cs.targets):
+                uses = any((isinstance(x, ast.Attribute) and x.attr == attr) or (isinstance(x, ast.Name) and x.id in derived)
+                           for a in list(cs.node.args) + [k.value for k in cs.node.keywords] for x in walk_no_nested(a))
+                if uses:
+                    sites.extend(cfg.nodes_of(cs.node))
+            elif any(t.cls is et and t.name.startswith("_") and t is not rex and writes_attr(t) for t in cs.targets):
+                sites.extend(cfg.nodes_of(cs.node))  # a private helper of the renderer that writes it
         if not sites:
             r.fail(rex, rex.node, "no write of " + attr, "the full report never writes the exception's %s" % what)
             continue
